@@ -29,6 +29,8 @@ namespace vctl {
         void const* obj = nullptr;
         std::uint64_t a = 0, b = 0;
         std::condition_variable cv;
+        void const* agent = nullptr;         // this thread's default_agent (learned at 9001/9002)
+        void const* waiting_on = nullptr;    // agent this thread is blocked on inside resume()
     };
 
     struct Controller;
@@ -72,9 +74,69 @@ namespace vctl {
         static void hookfn(int site, void const* obj, std::uint64_t a, std::uint64_t b)
         {
             Controller* c = g_cur;
-            if (!c || t_id < 0) return;
+            if (!c) return;
+            if (site >= 9001 && site <= 9005)
+            {
+                c->agent_hook(site, obj);
+                return;
+            }
+            if (t_id < 0) return;
             if (site < c->lo || site > c->hi) return;
             c->park(site, obj, a, b);
+        }
+        // default_agent (plain OS thread) suspend/resume: keeps the controller's view of who can
+        // run exact, so that "nobody parked, somebody blocked" is a real deadlock (stuck state)
+        bool park_at_suspend = true;
+        void agent_hook(int site, void const* agent)
+        {
+            if (site == 9001)
+            {
+                if (t_id < 0) return;
+                {
+                    std::lock_guard l(m);
+                    s[t_id].agent = agent;
+                }
+                if (park_at_suspend) park(9001, agent, 0, 0);
+                return;
+            }
+            std::lock_guard l(m);
+            switch (site)
+            {
+            case 9002:    // caller blocks in suspend(); resumers waiting for it to stop running wake up
+                if (t_id >= 0)
+                {
+                    s[t_id].agent = agent;
+                    s[t_id].st = BLOCKED;
+                }
+                for (auto& x : s)
+                    if (x.st == BLOCKED && x.waiting_on == agent)
+                    {
+                        x.st = RUN;
+                        x.waiting_on = nullptr;
+                    }
+                break;
+            case 9003: break;
+            case 9004:    // target of resume() is about to be woken
+                for (auto& x : s)
+                    if (x.agent == agent && x.st == BLOCKED && x.waiting_on == nullptr) x.st = RUN;
+                break;
+            case 9005:    // resumer blocks until the target suspends
+                if (t_id >= 0)
+                {
+                    s[t_id].st = BLOCKED;
+                    s[t_id].waiting_on = agent;
+                }
+                break;
+            }
+            ccv.notify_all();
+        }
+        std::vector<int> blocked()
+        {
+            std::lock_guard l(m);
+            std::vector<int> r;
+            for (int i = 0; i < (int) s.size(); ++i)
+                if (s[i].st == BLOCKED) r.push_back(i);
+            return r;
         }
         // called by harness threads
         void begin(int t)
